@@ -623,3 +623,73 @@ V('c12-deferred-not-consumed', 'C12', 'C12.WIRING', LSF,
 # twins
 V('c12-twin-window-reordered', 'C12', 'C12.WINDOW', MQF,
   "        send_before = now + self._aggregation_delay + self._additional_delay", "        send_before = self._additional_delay + (now + self._aggregation_delay)", expect='silent')
+
+HIS = '_history.py'
+# ---------------------------------------------------------------- C13
+V('c13-known-expired', 'C13', 'C13.KNOWN', INF,
+  "answer for answer in cache.get_all_by_details(name, type_, class_) if not answer.is_stale(now)", "answer for answer in cache.get_all_by_details(name, type_, class_) if not answer.is_expired(now)")
+V('c13-known-full-ttl', 'C13', 'C13.KNOWN', INF,
+  "        for answer in known_answers:\n            out.add_answer_at_time(answer, now)", "        for answer in known_answers:\n            out.add_answer_at_time(answer, 0)")
+V('c13-known-other-name', 'C13', 'C13.KNOWN', BR,
+  "for record in cache.get_all_by_details(type_, _TYPE_PTR, _CLASS_IN)", "for record in cache.get_all_by_details(type_, _TYPE_SRV, _CLASS_IN)")
+V('c13-bucket-time-zero', 'C13', 'C13.KNOWN', BR,
+  "            self.out.add_answer_at_time(answer, self.now_millis)", "            self.out.add_answer_at_time(answer, 0.0)")
+V('c13-ttl-always-full', 'C13', 'C13.KNOWN', OUTF,
+  "        self._write_int(record.ttl if now == 0 else record.get_remaining_ttl(now))", "        self._write_int(record.ttl)")
+V('c13-answers-written-time-zero', 'C13', 'C13.KNOWN', OUTF,
+  "            if not self._write_record(answer, time_):", "            if not self._write_record(answer, 0):")
+V('c13-qu-suppressed-lookup', 'C13', 'C13.HISTORY', INF,
+  "        if qu_question:\n            question.unicast = True\n        elif question_history.suppresses(question, now, known_answers):\n            return",
+  "        if question_history.suppresses(question, now, known_answers):\n            return\n        if qu_question:\n            question.unicast = True")
+V('c13-qm-not-recorded', 'C13', 'C13.HISTORY', INF,
+  "        else:\n            question_history.add_question_at_time(question, now, known_answers)\n        out.add_question(question)", "        out.add_question(question)")
+V('c13-browser-qu-suppressed', 'C13', 'C13.HISTORY', BR,
+  "        if not qu_question and question_history.suppresses(question, now_millis, known_answers):", "        if question_history.suppresses(question, now_millis, known_answers):")
+V('c13-browser-records-qu', 'C13', 'C13.HISTORY', BR,
+  "        if not qu_question:\n            question_history.add_question_at_time(question, now_millis, known_answers)", "        question_history.add_question_at_time(question, now_millis, known_answers)")
+V('c13-window-1999', 'C13', 'C13.HISTORY', 'const.py', "_DUPLICATE_QUESTION_INTERVAL = 999  # ms", "_DUPLICATE_QUESTION_INTERVAL = 1999  # ms")
+V('c13-window-ge', 'C13', 'C13.HISTORY', HIS, "        if now - than > _DUPLICATE_QUESTION_INTERVAL:\n            return False\n        # The last question has more", "        if now - than >= _DUPLICATE_QUESTION_INTERVAL:\n            return False\n        # The last question has more")
+V('c13-ignores-known-answers', 'C13', 'C13.HISTORY', HIS, "        if previous_known_answers - known_answers:\n            return False\n", "")
+V('c13-browser-always-qm', 'C13', 'C13.QUFIRST', BR,
+  "question_type = QU_QUESTION if self._question_type is None and first_request else self._question_type", "question_type = self._question_type")
+V('c13-browser-forced-ignored', 'C13', 'C13.QUFIRST', BR,
+  "question_type = QU_QUESTION if self._question_type is None and first_request else self._question_type", "question_type = QU_QUESTION if first_request else self._question_type")
+V('c13-lookup-always-qu', 'C13', 'C13.QUFIRST', INF,
+  "this_question_type = question_type or QU_QUESTION if first_request else QM_QUESTION", "this_question_type = question_type or QU_QUESTION")
+V('c13-refresh-is-first', 'C13', 'C13.QUFIRST', BR,
+  "            self.async_send_ready_queries(False, now_millis, ready_types)", "            self.async_send_ready_queries(True, now_millis, ready_types)")
+V('c13-no-jitter', 'C13', 'C13.CONST', INF, "                    next_ += self._get_random_delay()\n", "")
+V('c13-srv-asked-when-known', 'C13', 'C13.CONST', INF,
+  "            out, qu_question, history, cache, now, name, _TYPE_SRV, _CLASS_IN, True", "            out, qu_question, history, cache, now, name, _TYPE_SRV, _CLASS_IN, False")
+# twins
+V('c13-twin-qu-rewrite', 'C13', 'C13.QUFIRST', BR,
+  "question_type = QU_QUESTION if self._question_type is None and first_request else self._question_type", "question_type = self._question_type\n        if question_type is None and first_request:\n            question_type = QU_QUESTION", expect='silent')
+V('c13-twin-window-flipped', 'C13', 'C13.HISTORY', HIS, "        if now - than > _DUPLICATE_QUESTION_INTERVAL:\n            return False\n        # The last question has more", "        if than + _DUPLICATE_QUESTION_INTERVAL < now:\n            return False\n        # The last question has more", expect='silent')
+
+# ---------------------------------------------------------------- C16
+V('c16-data-updated-before-test', 'C16', 'C16.GUARD', LSF,
+  "    ) -> None:\n        if (\n            self.data == data\n            and (now - _DUPLICATE_PACKET_SUPPRESSION_INTERVAL) < self.last_time",
+  "    ) -> None:\n        previous, self.data = self.data, data\n        if (\n            previous == data\n            and (now - _DUPLICATE_PACKET_SUPPRESSION_INTERVAL) < self.last_time")
+V('c16-qu-exemption-dropped', 'C16', 'C16.GUARD', LSF,
+  "            and self.last_message is not None\n            and not self.last_message.has_qu_question()\n", "            and self.last_message is not None\n")
+V('c16-interval-ignored', 'C16', 'C16.GUARD', LSF,
+  "            and (now - _DUPLICATE_PACKET_SUPPRESSION_INTERVAL) < self.last_time\n", "")
+V('c16-interval-le', 'C16', 'C16.GUARD', LSF,
+  "            and (now - _DUPLICATE_PACKET_SUPPRESSION_INTERVAL) < self.last_time\n", "            and (now - _DUPLICATE_PACKET_SUPPRESSION_INTERVAL) <= self.last_time\n")
+V('c16-invalid-not-remembered', 'C16', 'C16.GUARD', LSF,
+  "        msg = DNSIncoming(data, addr_port, scope, now)\n        self.data = data\n        self.last_time = now\n        self.last_message = msg\n        if msg.valid is True:",
+  "        msg = DNSIncoming(data, addr_port, scope, now)\n        if msg.valid is True:\n            self.data = data\n            self.last_time = now\n            self.last_message = msg")
+V('c16-time-not-remembered', 'C16', 'C16.GUARD', LSF,
+  "        self.data = data\n        self.last_time = now\n        self.last_message = msg", "        self.data = data\n        self.last_message = msg")
+V('c16-remember-after-dispatch', 'C16', 'C16.GUARD', LSF,
+  "        self.data = data\n        self.last_time = now\n        self.last_message = msg\n", "",
+  more=[(LSF, "        if TYPE_CHECKING:\n            assert self.transport is not None\n        self.handle_query_or_defer(msg, addr, port, self.transport, v6_flow_scope)", "        self.handle_query_or_defer(msg, addr, port, self.transport, v6_flow_scope)\n        self.data = data\n        self.last_time = now\n        self.last_message = msg"),
+        (LSF, "        if not msg.is_query():\n            self._record_manager.async_updates_from_response(msg)\n            return", "        if not msg.is_query():\n            self._record_manager.async_updates_from_response(msg)\n            self.data = data\n            self.last_time = now\n            self.last_message = msg\n            return")])
+V('c16-interval-zero', 'C16', 'C16.GUARD', 'const.py', "_DUPLICATE_PACKET_SUPPRESSION_INTERVAL = 1000  # ms", "_DUPLICATE_PACKET_SUPPRESSION_INTERVAL = 0  # ms")
+V('c16-shared-protocol', 'C16', 'C16.GUARD', '_engine.py',
+  "        for s in reader_sockets:\n            transport, protocol = await loop.create_datagram_endpoint(\n                lambda: AsyncListener(self.zc), sock=s  # type: ignore[arg-type, return-value]\n            )",
+  "        shared = AsyncListener(self.zc)\n        for s in reader_sockets:\n            transport, protocol = await loop.create_datagram_endpoint(\n                lambda: shared, sock=s  # type: ignore[arg-type, return-value]\n            )")
+# twins
+V('c16-twin-guard-reordered', 'C16', 'C16.GUARD', LSF,
+  "            self.data == data\n            and (now - _DUPLICATE_PACKET_SUPPRESSION_INTERVAL) < self.last_time\n            and self.last_message is not None\n            and not self.last_message.has_qu_question()",
+  "            self.last_message is not None\n            and data == self.data\n            and now < self.last_time + _DUPLICATE_PACKET_SUPPRESSION_INTERVAL\n            and not self.last_message.has_qu_question()", expect='silent')
